@@ -31,7 +31,7 @@ RULE = ('sweep: for every corpus file x dialect: truncation at every byte offset
         'distinct = distinct (file, fault kind, outcome class, error class, position class); non-trivial = every damaged text')
 ASSUMPTIONS = ['covers the fault-reachable neighbourhood of well-formed MIBs, not arbitrary strings (that would be input fuzzing)',
                'termination is judged with a wall cap per chunk of parses']
-SWEEP_SET = {'quick': '6 corpus files: all prefixes (3 dialects), all single-byte replacements x 5 characters (compat dialect), all declaration-line insertions x 4 kinds, all comment/indent replacements, compile() truncations every 7th offset',
+SWEEP_SET = {'quick': '6 corpus files: all prefixes (3 dialects), all single-byte replacements x 5 characters (compat dialect), every token deleted / duplicated / case-swapped, oversize numbers substituted for every integer literal, all declaration-line insertions x 6 kinds, all comment/indent replacements, compile() truncations every 7th offset',
              'thorough': '9 corpus files, same fault kinds, compile() truncations every 3rd offset'}
 
 ALPHABET = ['@', '"', '{', '7', '\n', '%']
@@ -226,6 +226,21 @@ def run(scn):
                 elif res[0] == 'lexerr' and getattr(res[1], 'lineno', None) != line:
                     J.V('C11.2-line', 'oversize number at line %d of %s reported at line %r' % (line, f.name, getattr(res[1], 'lineno', None)), what='wrong-line-number', inserted='bignum')
                 J.sigs.add((f.name, 'number', big[0] == '-', res[0], type(res[1]).__name__ if res[0] != 'ok' else 'ok'))
+    elif k == 'token':
+        f = fl[scn['file']]
+        for (pos, end) in scn['spans']:
+            if J.abort:
+                break
+            tok = f.text[pos:end]
+            for what, text in (('delete', f.text[:pos] + f.text[end:]), ('duplicate', f.text[:end] + ' ' + tok + f.text[end:]),
+                               ('swap-case', f.text[:pos] + tok.swapcase() + f.text[end:])):
+                if text == f.text:
+                    continue
+                res = attempt(d, text)
+                J.units += 1
+                J.fire('token-' + what)
+                J.clause1(res, text, 'for file %s with token %r at %d %sd' % (f.name, tok[:20], pos, what))
+                J.sigs.add((f.name, 'token', what, res[0], type(res[1]).__name__ if res[0] not in ('ok', 'timeout') else res[0]))
     elif k in ('comment', 'indent'):
         f = fl[scn['file']]
         ref = intact(tier, scn['file'], d)
@@ -445,6 +460,18 @@ def number_spots(f):
     return out
 
 
+def token_spans(f):
+    """(start, end) of tokens on plain code lines (own approximate tokeniser: quoted strings, words, punctuation)"""
+    out = []
+    for i, (kind, t) in enumerate(f.lines):
+        if kind not in ('code', 'decl', 'head', 'end'):
+            continue
+        code = t.split('--')[0] if t.count('"') % 2 == 0 else t
+        for m in re.finditer(r'"[^"]*"|\'[0-9a-fA-F]*\'[hHbB]|[A-Za-z0-9][A-Za-z0-9-]*|::=|\.\.|[{}()\[\],;|.-]', code):
+            out.append((f.offs[i] + m.start(), f.offs[i] + m.end()))
+    return out
+
+
 def sweep(tier):
     out = []
     fl = files(tier)
@@ -459,6 +486,9 @@ def sweep(tier):
         dl = f.decl_lines()
         for i in range(0, len(dl), 10):
             out.append({'k': 'insert', 'tier': tier, 'file': fi, 'lines': dl[i:i + 10]})
+        spans = token_spans(f)
+        for i in range(0, len(spans), 60):
+            out.append({'k': 'token', 'tier': tier, 'file': fi, 'spans': spans[i:i + 60]})
         spots = number_spots(f)
         for i in range(0, len(spots), 12):
             out.append({'k': 'number', 'tier': tier, 'file': fi, 'spots': spots[i:i + 12]})
@@ -513,7 +543,7 @@ def shrink(scn):
             s = copy.deepcopy(scn)
             s['lo'], s['hi'] = lo, hi
             yield s
-    for key in ('lines', 'positions', 'cuts', 'spots'):
+    for key in ('lines', 'positions', 'cuts', 'spots', 'spans'):
         if key in scn and len(scn[key]) > 1:
             h = len(scn[key]) // 2
             for part in (scn[key][:h], scn[key][h:]):
